@@ -80,6 +80,21 @@ class Actors:
                             and self.priority == other.priority)
                 __hash__ = object.__hash__
 
+            if config.get('pord'):
+                # processors with an ordering of their own (sortable
+                # dataclasses): nothing to do with their priorities
+                def __lt__(self, other):
+                    return str(self._label) > str(getattr(other, '_label', ''))
+
+                def __gt__(self, other):
+                    return str(self._label) < str(getattr(other, '_label', ''))
+
+                def __le__(self, other):
+                    return not self.__gt__(other)
+
+                def __ge__(self, other):
+                    return not self.__lt__(other)
+
             def process(self, dt=1):
                 it.proc_called(self, dt)
 
@@ -1199,6 +1214,42 @@ class Interp:
         return [j for q, j in self.procs
                 if issubclass(self.actors.pclasses[self.cfg['pinsts'][j]], T)]
 
+    def op_mass_delete(self, op, start):
+        """A separate world with n plain entities, all of them deleted
+        (deferred) in one go: the next process() removes every one of them
+        before its processors run."""
+        n = op[1]
+        if self.depth:
+            return 'skip'
+        d = self.desper
+
+        class Dust:
+            pass
+        seen = []
+
+        class Count(d.Processor):
+            def process(self, dt=1):
+                seen.append(len(self.world.get(Dust)))
+        w = d.World()
+        w.add_processor(Count())
+        resume = kernel.StepBudget.pause()
+        try:
+            ids = [w.create_entity(Dust()) for _ in range(n)]
+            for e in ids:
+                w.delete_entity(e)
+            w.process(1)
+        except Exception as e:
+            self.fail('C05', 'process_raised', f'{n} deferred deletions in '
+                      f'one frame: {type(e).__name__}: {e}')
+        finally:
+            resume()
+        self.probes['mass_deletion_in_one_frame'] += 1
+        left = len(w.get(Dust))
+        if seen != [0] or left or w.entities:
+            self.fail('C05', 'reaped_late', f'{n} entities awaiting deletion:'
+                      f' the processor of the next frame still found '
+                      f'{seen} components, {left} are left afterwards')
+
     def op_spam_add(self, op, start):
         """n replacements of a processor of one private type (every
         add_processor counts for whatever the world keeps per insertion),
@@ -2021,6 +2072,7 @@ def gen_config(prop, rng):
     if rng.random() < 1 / 3:
         faults = []
     return {'peq': prop == 'C07' and rng.random() < .25, 'many_procs': many,
+            'pord': prop == 'C07' and rng.random() < .15,
             'ladder': ladder,
             'peek': rng.random() < .4,
             'query_object': prop in ('C01', 'C06') and rng.random() < .04,
@@ -2363,6 +2415,11 @@ def generate(prop, run_seed, tier='quick', tolerate=frozenset()):
                     if script:
                         scripts[f'proc:{pi}:{cnt}'] = script
         sh.apply(op)
+    if prop == 'C05' and crng.random() < (.02 if tier == 'thorough'
+                                          else .003):
+        ops.insert(crng.randint(0, len(ops)),
+                   ['mass_delete', crng.choice([2 ** 15 + 9, 2 ** 16 + 5,
+                                                4099, 70000])])
     for rb in cfg.pop('rebase', []) if isinstance(cfg.get('rebase'), list) \
             else []:
         ops.insert(crng.randint(len(ops) // 3, len(ops)), rb)
